@@ -81,6 +81,26 @@ impl Prop for P {
             push_all_front_ends(&mut cases, stats, &ops, 0, &[*rng.pick(&geometries()[..])]);
             stats.bump("sets_with_repeats");
         }
+        // 4b. keys that are multi-byte UTF-8 strings, and the same sets with ONE key that is not valid UTF-8 placed
+        // first, in the middle or last in key order: the string collectors (into_str_vec / into_str_keys / into_strs)
+        // must return every item, or the FromUtf8 error of exactly that key (self-check of the executor)
+        {
+            let valid: Vec<Vec<u8>> = ["", "a", "az", "\u{e9}", "\u{e9}a", "\u{65e5}\u{672c}", "\u{65e5}\u{672c}\u{8a9e}", "\u{1F600}", "\u{7ff}\u{800}"].iter().map(|s| s.as_bytes().to_vec()).collect();
+            let invalid: [&[u8]; 9] = [b"\x00\x80", b"a\x80", b"\xc3", b"\xc0\x80", b"\xe6\x97", b"\xed\xa0\x80", b"\xf0\x9f\x98", b"\xf4\x90\x80\x80", b"\xff"];
+            push_all_front_ends(&mut cases, stats, &set_ops(&sort_dedup(valid.clone())), 0, &geometries()[..2]);
+            let vals = value_pattern(4, valid.len(), rng);
+            push_all_front_ends(&mut cases, stats, &map_ops(&with_values(&sort_dedup(valid.clone()), &vals)), 0, &geometries()[..1]);
+            stats.bump("utf8_all_valid_multibyte");
+            for bad in invalid {
+                let mut ks = valid.clone();
+                ks.push(bad.to_vec());
+                let ks = sort_dedup(ks);
+                let vals = value_pattern(1, ks.len(), rng);
+                push_all_front_ends(&mut cases, stats, &map_ops(&with_values(&ks, &vals)), 0, &geometries()[..1]);
+                push_all_front_ends(&mut cases, stats, &set_ops(&[bad.to_vec()]), 0, &geometries()[..1]);
+                stats.bump("utf8_one_invalid_key");
+            }
+        }
         // 5. corpora (thorough): model side is slow on these, keep them few
         if tier == Tier::Thorough {
             for (f, n) in [("words-10000", 3000usize), ("wiki-urls-10000", 1500)] {
